@@ -240,3 +240,11 @@ Theorem C15_missing_field_is_lost : forall tbl k f, memb f (tbl k) = false ->
   copy tbl (Node k [] [(f, [Node 0 [] []])]) <> Node k [] [(f, [Node 0 [] []])].
 Proof. exact copy_loses. Qed.
 Print Assumptions C15_missing_field_is_lost.
+
+(* ------------------------------------------------------------------ C16 *)
+(* the collision predicates range over Go maps (imports, value variables); whatever order the map is iterated
+   in, the disambiguated name is the same *)
+Theorem C16_collision_order_independent : forall bad bad' name,
+  Permutation.Permutation bad bad' -> disamb_in bad name = disamb_in bad' name.
+Proof. exact disamb_in_perm. Qed.
+Print Assumptions C16_collision_order_independent.
